@@ -596,6 +596,9 @@ func runCfgCase(seed int64, dir string, st *stats) []finding {
 		_ = m.GetSafeClose().WaitClosed()
 	}()
 
+	if st.wantSample {
+		st.sample = cc
+	}
 	ref := newRefSet(rs)
 	var out []finding
 	seen := map[string]bool{}
